@@ -217,6 +217,10 @@ def check(an, rep, tier):
             rep.add('P-forward', 'act_one.tt_to_qtt',
                     paths.src(fn.module, node), 'ok' if ok else 'violation',
                     '' if ok else 'e / r are not forwarded')
+    from .. import rules_proto as _RP
+    _callers = {f.qualname for f in prog.all_functions()
+                if f.module.name in ('core', 'act_one', 'grid')}
+    _RP.check_param_forwarding(prog, rep, callers=_callers)
     rep.floor('S-layout', 3, 'merge layouts')
     rep.floor('S-ret', 10, 'conversion results')
     rep.floor('S-pair', 3, 'index map pairing')
